@@ -378,7 +378,7 @@ pub fn write_replay(dir: &str, name: &str, j: &J) -> Result<String, String> {
 
 /// Re-executes a replay file; returns process exit code. The case runs on its own thread under the
 /// same 60 s watchdog as a batch, so that a `hang` replay reproduces as a hang instead of never returning.
-pub fn replay<S: Scenario>(s: S, j: &J) -> i32 {
+pub fn replay<S: Scenario>(s: S, j: &J, timeout_s: u64) -> i32 {
     let class = j["class"].as_str().unwrap_or("").to_string();
     let case = match s.from_json(&j["case"]) {
         Ok(c) => c,
@@ -398,10 +398,10 @@ pub fn replay<S: Scenario>(s: S, j: &J) -> i32 {
         eprintln!("HARNESS-ERROR: cannot spawn replay thread");
         return 2;
     }
-    let viols = match rx.recv_timeout(std::time::Duration::from_secs(60)) {
+    let viols = match rx.recv_timeout(std::time::Duration::from_secs(timeout_s)) {
         Ok(v) => v,
         Err(std::sync::mpsc::RecvTimeoutError::Timeout) => {
-            println!("REPLAY property={id} class=hang detail=no result after 60 s");
+            println!("REPLAY property={id} class=hang detail=no result after {timeout_s} s");
             if class == "hang" {
                 println!("REPLAY-REPRODUCED property={id} class=hang");
             } else {
@@ -432,6 +432,81 @@ pub fn replay<S: Scenario>(s: S, j: &J) -> i32 {
         println!("REPLAY-DIFFERENT property={id} expected-class={class}");
     }
     1
+}
+
+/// Executes a replay file in a child process (`sim replay-inner`) and returns the violation classes it shows:
+/// the classes printed by the child, `hang` if it does not answer in time, `process_death` if it dies.
+pub fn external_classes(file: &str, timeout_s: u64) -> Result<Vec<String>, String> {
+    use std::io::Read;
+    use std::process::{Command, Stdio};
+    let exe = std::env::current_exe().map_err(|e| e.to_string())?;
+    let mut child = Command::new(exe)
+        .args(["replay-inner", file, "--timeout", &timeout_s.to_string()])
+        .stdout(Stdio::piped())
+        .stderr(Stdio::null())
+        .spawn()
+        .map_err(|e| format!("spawn: {e}"))?;
+    let t0 = Instant::now();
+    let status = loop {
+        match child.try_wait() {
+            Ok(Some(st)) => break Some(st),
+            Ok(None) => {
+                if t0.elapsed().as_secs() > timeout_s + 10 {
+                    let _ = child.kill();
+                    let _ = child.wait();
+                    break None;
+                }
+                std::thread::sleep(std::time::Duration::from_millis(5));
+            }
+            Err(e) => return Err(format!("wait: {e}")),
+        }
+    };
+    let mut out = String::new();
+    if let Some(mut so) = child.stdout.take() {
+        let _ = so.read_to_string(&mut out);
+    }
+    let mut classes: Vec<String> = out
+        .lines()
+        .filter_map(|l| l.strip_prefix("REPLAY property="))
+        .filter_map(|l| l.split(" class=").nth(1))
+        .map(|l| l.split(" detail=").next().unwrap_or("").to_string())
+        .collect();
+    match status {
+        None => classes.push("hang".into()),
+        Some(st) if !matches!(st.code(), Some(0) | Some(1) | Some(2)) => classes.push("process_death".into()),
+        _ => {}
+    }
+    Ok(classes)
+}
+
+/// Greedy shrinking for violations that cannot be observed in-process (hang, process death): every candidate is
+/// executed in a child process with a time limit. Bounded by `budget` candidates.
+pub fn minimise_external<S: Scenario>(s: &S, case: S::Case, class: &str, dir: &str, seed: u64, run: u64, timeout_s: u64, mut budget: u32) -> (S::Case, u64) {
+    let mut cur = case;
+    let mut steps = 0u64;
+    let tmp = format!("{dir}/.min-{}-{}.json", std::process::id(), run);
+    'outer: loop {
+        for cand in s.shrink(&cur) {
+            if budget == 0 {
+                break 'outer;
+            }
+            budget -= 1;
+            let j = json!({"property": s.id(), "scenario": s.name(), "verif_seed": seed, "run": run, "class": class, "case": s.to_json(&cand)});
+            if std::fs::create_dir_all(dir).is_err() || std::fs::write(&tmp, serde_json::to_string(&j).unwrap()).is_err() {
+                break 'outer;
+            }
+            if let Ok(classes) = external_classes(&tmp, timeout_s) {
+                if classes.iter().any(|c| c == class) {
+                    cur = cand;
+                    steps += 1;
+                    continue 'outer;
+                }
+            }
+        }
+        break;
+    }
+    let _ = std::fs::remove_file(&tmp);
+    (cur, steps)
 }
 
 // ---------------------------------------------------------------------------
@@ -495,15 +570,19 @@ pub fn run_inner<S: Scenario>(s: S, o: &Opts) -> i32 {
                 if r != 0 && now.saturating_sub(st) > o.hang_secs * 1000 {
                     let run = r - 1;
                     let case = s.gen(o.seed, run);
+                    let before = s.size(&case);
+                    // candidates run in child processes with a 10 s limit each (a hang cannot be interrupted in-process)
+                    let (min, steps) = minimise_external(&*s, case, "hang", &o.replay_dir, o.seed, run, 10, 40);
                     let j = json!({
                         "property": s.id(), "scenario": s.name(), "verif_seed": o.seed, "run": run,
-                        "class": "hang", "case": s.to_json(&case),
-                        "expect": format!("a result or an error; no result after {} s", o.hang_secs),
+                        "class": "hang", "case": s.to_json(&min),
+                        "detail": format!("a result or an error is owed; no result after {} s (10 s for minimised candidates)", o.hang_secs),
+                        "minimised_from": before, "minimised_to": s.size(&min), "shrink_steps": steps,
                     });
                     let path = write_replay(&o.replay_dir, &format!("{}-{}-{}-hang", s.id(), o.seed, run), &j)
                         .unwrap_or_else(|e| e);
                     println!("VIOLATION property={} replay={}", s.id(), path);
-                    println!("  class=hang run={run} (unminimised)");
+                    println!("  class=hang run={run}");
                     std::process::exit(1);
                 }
             }
@@ -812,14 +891,16 @@ pub fn run_outer<S: Scenario>(s: S, scen: &str, o: &Opts, raw: &[String]) -> i32
     match culprit {
         Some((run, st)) => {
             let case = s.gen(o.seed, run);
+            let before = s.size(&case);
+            let (min, steps) = minimise_external(&s, case, "process_death", &o.replay_dir, o.seed, run, 60, 60);
             let j = json!({
                 "property": s.id(), "scenario": s.name(), "verif_seed": o.seed, "run": run,
                 "class": "process_death", "detail": format!("the process executing this run died: {st}"),
-                "case": s.to_json(&case), "expect": "a result or an error",
+                "case": s.to_json(&min), "minimised_from": before, "minimised_to": s.size(&min), "shrink_steps": steps,
             });
             let path = write_replay(&o.replay_dir, &format!("{}-{}-{}-death", s.id(), o.seed, run), &j).unwrap_or_else(|e| e);
             println!("VIOLATION property={} replay={}", s.id(), path);
-            println!("  class=process_death run={run} status={st} (unminimised)");
+            println!("  class=process_death run={run} status={st}");
             1
         }
         None => {
